@@ -134,13 +134,29 @@ class StmtMixin:
                 name = e.id
         return [("raise", st, name)]
 
+    def s_Delete(self, s, st):
+        for t in s.targets:
+            if isinstance(t, ast.Subscript):
+                base = self.eval(t.value, st)
+                o = st.obj(base) if isinstance(base, Ref) else None
+                if isinstance(o, HDict):
+                    kt = self.key_term(st, o, self.eval(t.slice, st), s)
+                    self.oblige(st, "key", s, z3.Select(o.dom, kt), "del of a possibly absent dictionary key")
+                    mo = st.mut(base)
+                    mo.size = mo.size - 1
+                    mo.dom = z3.Store(mo.dom, kt, z3.BoolVal(False))
+                    continue
+            raise VCError("del form at line %d" % s.lineno)
+        return [("normal", st, None)]
+
     def s_Global(self, s, st):
         return [("normal", st, None)]
 
     def s_Assign(self, s, st):
         lt = (self.contract.get("local_types") or {})
         if len(s.targets) == 1 and isinstance(s.targets[0], ast.Name) and s.targets[0].id in lt and \
-                (isinstance(s.value, (ast.Dict, ast.List)) and not (getattr(s.value, "keys", None) or getattr(s.value, "elts", None))):
+                ((isinstance(s.value, (ast.Dict, ast.List)) and not (getattr(s.value, "keys", None) or getattr(s.value, "elts", None))) or
+                 (isinstance(s.value, ast.Call) and isinstance(s.value.func, ast.Name) and s.value.func.id == "List" and not s.value.args)):
             # empty literal whose element types come from the contract (python is untyped here)
             v = self.make_value(lt[s.targets[0].id], st, "loc_" + s.targets[0].id)
             o = st.mut(v)
